@@ -19,7 +19,10 @@ DEEP = [("3000 nested parentheses", "(" * 3000 + "a" + ")" * 3000), ("3000 chain
         ("3000 chained boosts", "a" + "^1" * 3000), ("a field group with 3000 chained boosts", "f:(a)" + "^1" * 3000), ("3000 chained +", "+" * 3000 + "a"),
         ("5000 operands of AND", " AND ".join(["a"] * 5000)), ("5000 implicit operands", "a " * 5000), ("3000 open brackets", "[" * 3000),
         ("1500 nested field groups", "f:(" * 1500 + "a" + ")" * 1500), ("a 5000 digit proximity", '"a b"~' + "1" * 5000), ("a 5000 digit boost", "a^" + "9" * 5000),
-        ("a 100000 character word", "w" * 100000), ("3000 unclosed groups", "(a " * 3000)]
+        ("a 100000 character word", "w" * 100000), ("3000 unclosed groups", "(a " * 3000),
+        # beyond the largest exponent of the decimal context
+        ("a 1000001 digit boost", "a^" + "9" * 1000001), ("a 1000001 digit fuzziness", "a~" + "9" * 1000001), ("a 1000001 digit proximity", '"a b"~' + "1" * 1000001),
+        ("a field group with a 1000001 digit boost", "f:(a b)^" + "9" * 1000001)]
 
 
 def dump(t):
